@@ -294,8 +294,18 @@ def _signer_history(ctx: Ctx, rng: SimRng) -> None:
     entry_points: list[tuple[str, Callable[[], Any]]]
 
     if kind in ("dsa", "ssa"):
+        import hashlib as _hl  # noqa: PLC0415
+
+        from btclib.curves import CURVES  # noqa: PLC0415
+
         mod = dsa if kind == "dsa" else ssa
-        s = mod.Signer(q)
+        # which arm an instance lives on is decided at construction: by the switch, the curve and the hash
+        ec = CURVES[ch.pick(["secp256k1", "secp256k1", "secp256r1" if kind == "dsa" else "secp192k1"], "signer.ec")]
+        hf = ch.pick([_hl.sha256, _hl.sha256, _hl.sha3_256], "signer.hf")
+        q = q % (ec.n - 1) + 1
+        s = mod.Signer(q, ec, hf)
+        msg32 = msg32[: hf().digest_size]
+        ctx.log("signer", kind, ec.name if hasattr(ec, "name") else "ec", hf.__name__, f"bindings={st.backend()}")
         entry_points = [
             ("sign_", lambda: s.sign_(msg32)),
             ("sign", lambda: s.sign(ch.nbytes(ch.draw(50, "mlen"), "m"))),
@@ -303,7 +313,7 @@ def _signer_history(ctx: Ctx, rng: SimRng) -> None:
         if kind == "dsa":
             entry_points.append(("sign_ nogrind", lambda: s.sign_(msg32, grind=False, verify=False)))
         else:
-            entry_points.append(("sign_ aux", lambda: s.sign_(msg32, ch.nbytes(32, "aux"), verify=False)))
+            entry_points.append(("sign_ aux", lambda: s.sign_(msg32, ch.nbytes(hf().digest_size, "aux"), verify=False)))
         killers: list[tuple[str, Callable[[], Any]]] = [("wipe", s.wipe), ("with-exit", lambda: s.__exit__(None, None, None))]
     else:
         s, entry_points, killers = _soft_signer(ctx, q, msg32)
@@ -485,26 +495,30 @@ def _wallet_history(ctx: Ctx, rng: SimRng) -> None:
             nxt[b] = want + 1
             if a not in ledger:
                 ledger.append(a)
-            info = w.address_info(a)
+            with ctx.must_succeed(P, "recorded-address-is-known", "address_info"):
+                info = w.address_info(a)
             ctx.check(P, "next-info-position", (info.branch, info.index) == (b, want), f"address_info says {(info.branch, info.index)}, model {(b, want)}")
             ctx.log("next", b, want, a[:12])
             ctx.state(f"next:{min(want, 6)}")
         elif op == "spk":
             before = snapshot()
-            w.script_pub_key(b, ch.draw(60, "index"))
+            with ctx.must_succeed("C14", "script-pub-key-derives"):
+                w.script_pub_key(b, ch.draw(60, "index"))
             ctx.check(P, "read-only-leaves-ledger", snapshot() == before, "script_pub_key changed the ledger")
         elif op == "position_of":
             before = snapshot()
             i = ch.draw(6, "index")
-            w.position_of(twin.script_pub_key(b, i), 8)
-            if ch.draw(2, "alien"):
-                w.position_of(b"\x00\x14" + bytes(20), 3)
+            with ctx.must_succeed("C14", "position-of-answers"):
+                w.position_of(twin.script_pub_key(b, i), 8)
+                if ch.draw(2, "alien"):
+                    w.position_of(b"\x00\x14" + bytes(20), 3)
             ctx.check(P, "read-only-leaves-ledger", snapshot() == before, "position_of changed the ledger")
         elif op == "info":
             before = snapshot()
             if ledger and ch.draw(3, "known"):
                 a = ch.pick(ledger, "which")
-                info = w.address_info(a)
+                with ctx.must_succeed(P, "recorded-address-is-known", "address_info"):
+                    info = w.address_info(a)
                 ctx.check(P, "info-is-recorded-address", info.address == a, "address_info returned another address")
             else:
                 try:
@@ -556,7 +570,8 @@ def _wallet_history(ctx: Ctx, rng: SimRng) -> None:
     # the high-water mark once more, on every branch
     for b in branches:
         want = nxt.get(b, 0)
-        a = w.next_address(b)
+        with ctx.must_succeed(P, "next-succeeds", "next_address"):
+            a = w.next_address(b)
         ctx.check(P, "next-is-lowest-above-all-handed-out", a == expect_address(b, want), f"final next_address({b}) != index {want}")
         if a not in ledger:
             ledger.append(a)
